@@ -555,6 +555,78 @@ func runC17Tail(w *hx.Worker, k kindT) {
 	}
 }
 
+// runC17Again: the production with the numeric field is tried at the SAME position by several alternatives
+// (Range = Small ":" Small | Small | any token). A conversion that failed in one alternative must not leave
+// anything behind for the next one: a number that does not fit ends up as text in the last alternative,
+// never as a zero / partial value in an earlier one.
+func runC17Again(w *hx.Worker, k kindT) {
+	small := reflect.StructOf([]reflect.StructField{{Name: "V", Type: k.plain, Tag: `@Num`}})
+	rng := reflect.StructOf([]reflect.StructField{{Name: "A", Type: small, Tag: `@@ ":"`}, {Name: "B", Type: small, Tag: `@@`}})
+	rt := reflect.StructOf([]reflect.StructField{{Name: "R", Type: reflect.PtrTo(rng), Tag: `@@`}, {Name: "S", Type: reflect.PtrTo(small), Tag: `| @@`}, {Name: "T", Type: reflect.TypeOf(""), Tag: `| @Num`}})
+	texts := []string{"7", "0", "-1", "127", "128", "255", "256", "-300", "70000", "1e39", "1.5", "x", "99999999999999999999"}
+	for _, la := range []int{2, 3, participle.MaxLookahead, -1} {
+		p, err := participle.Build[any](participle.Lexer(numLexerWhole), participle.Elide("Space"), participle.UseLookahead(la), participle.Union[any](reflect.New(rt).Elem().Interface()))
+		if err != nil {
+			w.Violate(hx.Violation{Key: fmt.Sprintf("again field=%s", k.name), Class: "build-failed", Detail: map[string]any{"err": err.Error()}})
+			return
+		}
+		run := func(in string, want string) {
+			key := fmt.Sprintf("again field=%s lookahead=%d :: in=%q", k.name, la, in)
+			w.Count("evaluations", 1)
+			var res *any
+			var perr error
+			pan, msg := hx.Guard(func() { res, perr = p.ParseString("", in) })
+			got := ""
+			switch {
+			case pan:
+				got = "PANIC " + msg
+			case perr != nil:
+				got = "error"
+			default:
+				v := reflect.ValueOf(*res)
+				num := func(x reflect.Value) string {
+					b, nan := valueBits(x.FieldByName("V"))
+					return fmt.Sprint(b, nan)
+				}
+				if r := v.FieldByName("R"); !r.IsNil() {
+					got += "R(" + num(r.Elem().FieldByName("A")) + "," + num(r.Elem().FieldByName("B")) + ")"
+				}
+				if sv := v.FieldByName("S"); !sv.IsNil() {
+					got += "S(" + num(sv.Elem()) + ")"
+				}
+				if t := v.FieldByName("T").String(); t != "" {
+					got += "T(" + t + ")"
+				}
+			}
+			if got != want {
+				w.Violate(hx.Violation{Key: key, Class: "wrong-value", Detail: map[string]any{"got": got, "expected": want, "ast": g2s(res), "error": fmt.Sprint(perr)}})
+				return
+			}
+			w.DistinctS("again" + k.name + want)
+		}
+		ex := func(t string) (string, bool) {
+			o, err := oracle(k, t)
+			return fmt.Sprint(o.bits, o.nan), err == nil
+		}
+		for _, t1 := range texts {
+			if n1, ok := ex(t1); ok {
+				run(t1, "S("+n1+")")
+			} else {
+				run(t1, "T("+t1+")")
+			}
+			for _, t2 := range texts {
+				n1, ok1 := ex(t1)
+				n2, ok2 := ex(t2)
+				if ok1 && ok2 {
+					run(t1+" : "+t2, "R("+n1+","+n2+")")
+				} else {
+					run(t1+" : "+t2, "error")
+				}
+			}
+		}
+	}
+}
+
 func g2s(p *any) string {
 	if p == nil || *p == nil {
 		return "<nil>"
@@ -1074,6 +1146,7 @@ func plan(c *hx.Ctx) *hx.Plan {
 				if i >= len(js) {
 					runC17Nested(w, kinds[i-len(js)])
 					runC17Tail(w, kinds[i-len(js)])
+					runC17Again(w, kinds[i-len(js)])
 					return
 				}
 				runC17(w, js[i], "")
@@ -1131,10 +1204,11 @@ func plan(c *hx.Ctx) *hx.Plan {
 
 func replay(c *hx.Ctx, key string) []hx.Violation {
 	w := hx.NewReplayWorker()
-	if c.Prop == "C17" && (strings.HasPrefix(key, "nested ") || strings.HasPrefix(key, "tail ")) {
+	if c.Prop == "C17" && (strings.HasPrefix(key, "nested ") || strings.HasPrefix(key, "tail ") || strings.HasPrefix(key, "again ")) {
 		for _, k := range kinds {
 			runC17Nested(w, k)
 			runC17Tail(w, k)
+			runC17Again(w, k)
 		}
 		var out []hx.Violation
 		for _, v := range w.Violations() {
